@@ -104,6 +104,36 @@ func typeIdx(ts *pdus.Tables, idx uint64) *pdus.Type { return ts.Types[int(idx%u
 // libTypeIdx is typeIdx with library-only struct fields included.
 func libTypeIdx(ts *pdus.Tables, idx uint64) *pdus.Type { return typeIdx(ts, idx).Lib() }
 
+// canonImage describes an encoded PDU so that equal PDUs compare equal: length, the mandatory part, and the optional
+// parameters as a set (they are emitted in map order).
+func canonImage(t *pdus.Type, b []byte, err error) string {
+	if err != nil {
+		return "err"
+	}
+	if m := pdus.MandatoryLen(t, b); m >= 0 && m <= len(b) {
+		if tail, terr := tlvTail(b[m:]); terr == nil {
+			return fmt.Sprintf("%d|%s|%016x", len(b), digestBytes(b[:m]), fw.HashStr(tail))
+		}
+	}
+	return digestBytes(b)
+}
+
+// echoCodec registers the two questions every PDU case can ask again later: what does this value encode to, and
+// what does this image decode to (fresh objects both times).
+func echoCodec(c *fw.Case, t *pdus.Type, v *pdus.Values, img []byte) {
+	keep := append([]byte(nil), img...)
+	c.Echo("IEncode+IDecode/"+t.Key(), func() string {
+		b, err := pdus.Build(t, v).IEncode()
+		q := t.New()
+		derr := q.IDecode(append([]byte(nil), keep...))
+		d := "err"
+		if derr == nil {
+			d = fmt.Sprintf("%016x", fw.HashStr(pdus.Describe(t, pdus.Extract(t, q))))
+		}
+		return canonImage(t, b, err) + " / " + d
+	})
+}
+
 func min(a, b int) int {
 	if a < b {
 		return a
